@@ -12,6 +12,9 @@ for i in ids:
     if ROUND2:
         try:
             L=json.load(open(f'/verif/hunts/{i}/findings.json'))
+            for extra in sorted(glob.glob(f'/verif/hunts/{i}/round*/findings.json')):
+                try: L+=json.load(open(extra))
+                except Exception: pass
             known='\n\nALREADY KNOWN — an earlier review of this property reported the following; the ones that were judged genuine have since been repaired in this checkout. Do NOT report any of these again (nor the same mechanism in another guise); look at OTHER mechanisms, other code paths of the listed files, other boundary values and other interleavings:\n' + '\n'.join('  - '+x.get('title','')[:200] for x in L)
         except Exception: pass
     txt=f"""You are working in a scratch git worktree of the Rust repository huggingface/xet-core at /tmp/hunt/{i} (a Rust client for Hugging Face Xet storage: content-defined chunking, Merkle hashing, xorb and shard binary formats, dedup index, local chunk cache). Work ONLY inside /tmp/hunt/{i}. Do NOT read or use anything under /verif, /root/agents, /tmp/mut*, /tmp/seed or other /tmp/hunt/* directories, and do not touch /repo. The sandbox has no network; build and test with `--offline`. Use your own cargo target directory (the default /tmp/hunt/{i}/target) and DELETE it (rm -rf /tmp/hunt/{i}/target) when you are completely done. Do NOT use `git stash` (it is shared between worktrees).
